@@ -2,6 +2,7 @@ import SkaModel.Core.Proto
 import SkaModel.Core.Pool
 import SkaModel.Core.Loop
 import SkaModel.Core.SeqSelect
+import SkaModel.Core.SeqChoice
 
 /-! Driver commands for the pool skeleton (C01, C02, C14). One self-contained case per line. -/
 
@@ -103,7 +104,38 @@ def cmdSeqCheck : P String := do
   let o := rows.all (Ska.Seq.nanOutsideB cand)
   pure s!"picks {showNats picks} | mask={if m then 1 else 0} outside={if o then 1 else 0}"
 
+/-- `choiceseq <first…> <k> (<p…> <u>)×k` → `picks … | zero=<0|1> prob=<0|1>`
+(weight vectors and uniform draws captured from the real `RandomState.choice` calls) -/
+def cmdChoiceSeq : P String := do
+  let first ← listOf nat
+  let k ← nat
+  let steps ← many (do
+    let p ← listOf float
+    let u ← float
+    pure (p, u)) k
+  let rows := steps.map (·.1)
+  let us := steps.map (·.2)
+  let picks := Ska.Seq.choicePicks rows us
+  let z := Ska.Seq.zeroOkB first rows picks
+  let ok := (List.zipWith Ska.Seq.probOkB rows us).all id
+  pure s!"picks {showNats picks} | zero={if z then 1 else 0} prob={if ok then 1 else 0}"
+
+/-- `shrinkseq <remaining…> <k> (<n> score… noise…)×k` → `picks … | len=<0|1>` or `none` -/
+def cmdShrinkSeq : P String := do
+  let remaining ← listOf nat
+  let k ← nat
+  let steps ← many (do
+    let row ← listOf optFloat
+    let nz ← many float row.length
+    pure (row, nz)) k
+  let rows := steps.map (·.1)
+  let noises := steps.map (·.2)
+  let l := Ska.Seq.shrinkLenOkB remaining.length rows
+  match Ska.Seq.shrinkSeq remaining rows noises with
+  | some picks => pure s!"picks {showNats picks} | len={if l then 1 else 0}"
+  | Option.none => pure "none"
+
 def handlers : List (String × P String) :=
-  [ ("candmap", cmdCandMap), ("seqcheck", cmdSeqCheck), ("poolA", cmdPoolA), ("validpool", cmdValidPool), ("altrace", cmdAlTrace), ("unlabeled", cmdUnlabeled) ]
+  [ ("candmap", cmdCandMap), ("seqcheck", cmdSeqCheck), ("choiceseq", cmdChoiceSeq), ("shrinkseq", cmdShrinkSeq), ("poolA", cmdPoolA), ("validpool", cmdValidPool), ("altrace", cmdAlTrace), ("unlabeled", cmdUnlabeled) ]
 
 end Ska.Drv.Pool
